@@ -12,7 +12,7 @@ RULE = ("tick-aligned windows with duration, step in 1..4 ticks and start in -2.
         "in -6..10 (inside, straddling or before the window start, shorter than a frame, empty) x fixed in "
         "{None, 0, 1, duration, duration+2*step+1}; timeline focuses (overlapping, abutting, tiny, empty) of up to 4 "
         "segments; each mode, index-array and return_ranges forms; random larger geometries; regimes K0, K4; "
-        "tolerance tier: decimal (non-dyadic) steps 0.01, 0.016, 1/3, ... and durations, focus bounds on, next to and "
+        "regime P0 (set_precision(0), sub-second window geometry, whole-second focuses); tolerance tier: decimal (non-dyadic) steps 0.01, 0.016, 1/3, ... and durations, focus bounds on, next to and "
         "between frame boundaries, passed as exact integers in units of 2^-130 s, each observed range bound required to "
         "be the rounding of a quotient within 2^-40 x (sum of operand magnitudes) / step of the exact one; "
         "non-trivial = the loose result has at least two frames")
